@@ -13,7 +13,9 @@
 (*              j-d >= 10: u does not fit 32 bits but then |k| < u/2, the  *)
 (*              quotient is 0 -- handled by case analysis.                 *)
 (*   phase "M"  MOD(n, m) with n = k/10^j, m = p/10^j (same scale), so     *)
-(*              MOD is integer floor-mod of k by p, scaled back.           *)
+(*              MOD is integer floor-mod of k by p, scaled back; INT(n/m)  *)
+(*              and MOD(n, m) are also given as a pair (ModPairs), bound   *)
+(*              by the identity n = m*INT(n/m) + MOD(n, m).                *)
 (*   phase "C"  CEILING / FLOOR and their .MATH / .PRECISE variants with   *)
 (*              a binary-exact significance p/4 (p in quarter units).      *)
 (*                                                                         *)
@@ -102,6 +104,20 @@ Odd(kk, jj)  == LET c == CeilMag(kk, jj)
 (* scale 10^jj.  ModQ is INT(n/m).                                         *)
 ModQ(kk, pp) == FloorDiv(kk, pp)
 Mod(kk, pp)  == kk - pp * ModQ(kk, pp)
+
+(* INT(n/m) and MOD(n, m) as a pair <<q, r>>.  The statement ties the two  *)
+(* functions together: n = m*INT(n/m) + MOD(n, m).  On exact numbers the   *)
+(* pair is <<ModQ, Mod>>.  A worksheet holds doubles: when n is a multiple  *)
+(* of a decimal m that has no exact double (0.3 = 3 * 0.1) the quotient     *)
+(* n/m may come out a hair below the whole number; INT is then one less     *)
+(* and the remainder one whole divisor more (INT(0.3/0.1) = 2,              *)
+(* MOD(0.3, 0.1) = 0.1 in Excel).  That pair is allowed as well: it is the  *)
+(* only other one that satisfies the identity with a remainder that does    *)
+(* not exceed the divisor.  What is not allowed is to mix the two           *)
+(* (INT(1/0.1) = 10 with MOD(1, 0.1) = 0.1 makes 1.1 out of 1).             *)
+ModPairs(kk, pp) ==
+  {<<ModQ(kk, pp), Mod(kk, pp)>>}
+    \cup (IF Mod(kk, pp) = 0 THEN {<<ModQ(kk, pp) - 1, pp>>} ELSE {})
 
 --------------------------------------------------------------------------
 (* CEILING / FLOOR family: x = kk/10^jj, significance s4/SigDen.           *)
@@ -307,6 +323,16 @@ ModLaws ==
         /\ Mod(k + p, p) = r /\ Mod(k - p, p) = r
         /\ Mod(-k, -p) = -r
         /\ (r = 0) <=> (Abs(k) % Abs(p) = 0)
+        \* INT(n/m) and MOD(n, m) together: every allowed pair satisfies the
+        \* identity, has the sign of the divisor and does not exceed it; the
+        \* exact pair is allowed, a second one only for a multiple
+        /\ <<q, r>> \in ModPairs(k, p)
+        /\ \A pr \in ModPairs(k, p) :
+              /\ k = p * pr[1] + pr[2]
+              /\ pr[2] = 0 \/ Sgn(pr[2]) = Sgn(p)
+              /\ Abs(pr[2]) <= Abs(p)
+              /\ (Abs(pr[2]) = Abs(p)) => (r = 0 /\ pr[1] = q - 1)
+              /\ (pr # <<q, r>>) => IsMult(k)
 
 \* CEILING / FLOOR: Lo and Hi are adjacent multiples of |sig| bracketing x;
 \* the documented conventions are instances of the statement-level relation
@@ -358,7 +384,8 @@ Export ==
                         even |-> Even(k, j), odd |-> Odd(k, j)]))
     [] ph = "M" ->
          PrintT(ToJson([ph |-> "M", k |-> k, j |-> j, m |-> p, cls |-> Class,
-                        mod |-> Mod(k, p), q |-> ModQ(k, p)]))
+                        mod |-> Mod(k, p), q |-> ModQ(k, p),
+                        pairs |-> ModPairs(k, p)]))
     [] ph = "C" ->
          LET lo == Lo(k, j, p)  hi == Hi(k, j, p)  n == Len(Variants)
          IN  PrintT(ToJson([ph |-> "C", k |-> k, j |-> j, s4 |-> p, den |-> SigDen, cls |-> Class,
